@@ -117,6 +117,22 @@ C15_LocRibAsIfFresh == C02_LocRibExact
 (* counts the C15-relevant states: a policy other than "acc" is configured and in force *)
 C15_Nontrivial == hasObs /\ CleanIn /\ (impPol # "acc" \/ expPol # "acc") /\ \E p \in Peers : Current(p) /\ CleanOut(p)
 
+(* C02: the best-path notification stream, folded in order, reproduces the current best table *)
+BestRec(x) == IF LocRibExpected(x) = {} THEN NoRoute
+              ELSE LET b == BestOf(LocRibExpected(x)) IN [src |-> b.src, v |-> b.v]
+C02_BestStream ==
+  (hasObs /\ CleanIn /\ "beststream" \in DOMAIN obs) => \A x \in Prefixes : obs.beststream[x] = BestRec(x)
+
+(* C02: exact / longer / shorter lookups agree with the table content.  The pool is nested:
+   x2 (10.1.0.128/25) inside x1 (10.1.0.0/24) inside 10.1.0.0/16 *)
+PresentPfx == {x \in Prefixes : LocRibExpected(x) # {}}
+C02_Lookups ==
+  (hasObs /\ CleanIn /\ "lookup" \in DOMAIN obs) =>
+     /\ SeqToSet(obs.lookup.exactx1)  = PresentPfx \cap {"x1"}
+     /\ SeqToSet(obs.lookup.longerx1) = PresentPfx \cap {"x1", "x2"}
+     /\ SeqToSet(obs.lookup.longer16) = PresentPfx \cap {"x1", "x2"}
+     /\ SeqToSet(obs.lookup.shortx2)  = PresentPfx \cap {"x1", "x2"}
+
 (* C02: received / accepted counters agree with that content *)
 C02_Counters ==
   hasObs => \A p \in Peers :
